@@ -25,6 +25,8 @@ func main() {
 		cmdAudit(os.Args[2:])
 	case "implscan":
 		cmdImplScan(os.Args[2:])
+	case "mutate":
+		cmdMutate(os.Args[2:])
 	case "replayfile":
 		cmdReplayFile(os.Args[2:])
 	case "memfs-selfcheck":
@@ -88,6 +90,7 @@ func cmdVerify(args []string) {
 	verbose := fs.Bool("v", false, "verbose")
 	out := fs.String("out", "/verif/out/dev", "output dir for VCs")
 	timeout := fs.Int("timeout", 10, "solver timeout (s)")
+	exact := fs.Bool("exact", false, "-fn names one function key exactly")
 	explain := fs.Bool("explain", false, "for sat failures, show which goal conjuncts are false in the model")
 	fs.Parse(args)
 	t0 := time.Now()
@@ -103,6 +106,9 @@ func cmdVerify(args []string) {
 	bad := 0
 	for _, k := range keys {
 		if *pat != "" && !strings.Contains(k, *pat) {
+			continue
+		}
+		if *exact && k != *pat {
 			continue
 		}
 		fr := eng.verifyFunc(k)
